@@ -41,14 +41,16 @@ theorem t12_cache_coherent (c : Cfg) (m : Bytes) (L : Layout) (hread : readNdef 
 attempts through the same object - any number, any messages (also oversize ones), each completed or failed at any
 state-changing command that the tag did not execute - and every final message up to the capacity: the final
 assignment succeeds and a fresh reader of the tag finds the same TLV offset, skip set, capacity, flags and
-exactly that message. -/
+exactly that message - also under the stricter rule of the present readers that the TLV must lie completely inside
+the data area (`readBack`). -/
 theorem t12_history_roundtrip (c : Cfg) (m : Bytes) (L : Layout) (hread : readNdef c m = .ok (some L))
     (hwf : WF c m L) (hw : L.writeable = true) (hs : List (Bytes × Option Fault))
     (hnl : ∀ a ∈ hs, ∀ f, a.2 = some f → f.late = false) (data : Bytes) (hcap : (data.length : Int) ≤ L.cap) :
     (attempt c L (history c L (fresh m) hs).1 data none).res = .ok () ∧
-    readNdef c (attempt c L (history c L (fresh m) hs).1 data none).st.tag = .ok (some { L with ndef := data }) := by
-  obtain ⟨h1, h2⟩ := history_roundtrip c m L ((readNdef_some c m L).1 hread) hwf hw hs hnl data hcap
-  exact ⟨h1, (readNdef_some c _ _).2 h2⟩
+    readNdef c (attempt c L (history c L (fresh m) hs).1 data none).st.tag = .ok (some { L with ndef := data }) ∧
+    readBack c (attempt c L (history c L (fresh m) hs).1 data none).st.tag = .ok (some { L with ndef := data }) := by
+  obtain ⟨h1, h2, h3⟩ := history_roundtrip c m L ((readNdef_some c m L).1 hread) hwf hw hs hnl data hcap
+  exact ⟨h1, (readNdef_some c _ _).2 h2, h3⟩
 
 /-! A Type 2 image whose NDEF TLV lies at 18: its length byte is the last byte of page 4, the value starts in
 page 5. -/
@@ -117,6 +119,8 @@ theorem t4_history_roundtrip (v : T4.Variant) (c : T4.Card) (i : T4.Info) (wf : 
 executed by the tag the empty message is read back -/
 example : (attempt t2Cfg cxL (history t2Cfg cxL (fresh cxM) [([1, 2, 3], some ⟨2, false⟩)]).1 [] none).res = .ok () ∧
     readNdef t2Cfg (attempt t2Cfg cxL (history t2Cfg cxL (fresh cxM) [([1, 2, 3], some ⟨2, false⟩)]).1 [] none).st.tag
+      = .ok (some { cxL with ndef := [] }) ∧
+    readBack t2Cfg (attempt t2Cfg cxL (history t2Cfg cxL (fresh cxM) [([1, 2, 3], some ⟨2, false⟩)]).1 [] none).st.tag
       = .ok (some { cxL with ndef := [] }) :=
   t12_history_roundtrip t2Cfg cxM cxL (by decide +kernel) (by decide +kernel) rfl _
     (by intro a ha f hf; simp only [List.mem_singleton] at ha; subst ha; cases hf; rfl) [] (by decide)
